@@ -71,6 +71,18 @@ func checkCodec(id, gen uint32) error {
 	if err != nil || json.Unmarshal(hj, &h2) != nil || h2.E != e || len(h2.Es) != 2 || h2.Es[0] != e || h2.Es[1] != (ecs.Entity{}) {
 		return fmt.Errorf("json round trip inside a struct failed: %s -> %+v (err %v)", hj, h2, err)
 	}
+	// JSON written by someone else: whitespace and indentation are insignificant
+	for _, txt := range []string{fmt.Sprintf("[ %d , %d ]", id, gen), fmt.Sprintf("[\n  %d,\n  %d\n]", id, gen), fmt.Sprintf(" [%d,\t%d] ", id, gen)} {
+		var e3 ecs.Entity
+		if err := json.Unmarshal([]byte(txt), &e3); err != nil || e3 != e {
+			return fmt.Errorf("json.Unmarshal(%q) gives %v (err %v), want %v", txt, e3, err, e)
+		}
+	}
+	ij, err := json.MarshalIndent(holder{E: e, Es: []ecs.Entity{e}}, "", "  ")
+	var h3 holder
+	if err != nil || json.Unmarshal(ij, &h3) != nil || h3.E != e || len(h3.Es) != 1 || h3.Es[0] != e {
+		return fmt.Errorf("indented JSON round trip failed: %s -> %+v (err %v)", ij, h3, err)
+	}
 	if e.IsZero() != (id == 0) {
 		return fmt.Errorf("IsZero()=%v for id %d", e.IsZero(), id)
 	}
